@@ -167,9 +167,11 @@ CLAIMS["C06"] = dict(
 )
 CLAIMS["C07"] = dict(
     level="other",
-    technique="static analysis: definite-initialisation rule for the split tables (no fill inside a possibly empty loop), early-return and advancement rules, fork/join and worker-effect rules, Stable propagation and front-end agreement over the instantiated AST",
-    text=("SPLIT-DEFINITE-INIT, ZERO-LENGTH, ADVANCE-EXACT (three genuine defects found and fixed: one thread with a partial merge, size 0, inputs over-advanced with sampling "
-          "splitting), FORK-JOIN, INDEX-BY-COPY, WORKER-WRITES, STABLE-PROPAGATE for base and all four front ends, FALLBACK-SWITCH."),
+    technique="static analysis: definite-initialisation rule for the split tables (no fill inside a possibly empty loop), early-return and advancement rules, resolution of the per-slab length/position expressions to integer functions checked on a small grid, fork/join and worker-effect rules, Stable propagation and front-end agreement over the instantiated AST",
+    text=("SPLIT-DEFINITE-INIT, ZERO-LENGTH, ADVANCE-EXACT, SLAB-LENGTH (the per-thread length as a function of (slab size, requested size, slab position), resolved through "
+          "locals or per-slab vectors, must equal max(0, min(local, size - position)); the cursors handed back must be those of the last slab that merged something). Four genuine "
+          "defects found and fixed: one thread with a partial merge, size 0, inputs over-advanced, negative slab length with sampling splitting. FORK-JOIN, INDEX-BY-COPY, "
+          "WORKER-WRITES, STABLE-PROPAGATE for base and all four front ends, FALLBACK-SWITCH, COMP-THREADED, and the loser-tree tables of C09 for the trees instantiated here."),
     note=(TRUST + "Not decided: equality with the sequential result and disjointness of the output windows (depend on partition values, see C08)."),
 )
 
